@@ -41,6 +41,7 @@ def c_dev10n(run):
     for f in run.prog.analysed_functions():
         if f.module.short not in ('base/animate', 'timing', 'stdlib/collections', 'base/graphics'):
             r10_args.check_option_used(run, f)
+            r10_args.check_sibling_options(run, f)
     run.explanation = 'development run of R10n over the whole package'
 
 
@@ -348,6 +349,11 @@ def c15(run):
     r10_args.check_recursion_options(run, prog.analysed_functions())
     r10_args.check_broadcast_stores(run, prog.analysed_functions())
     r10_args.check_none_default_tests(run, prog.analysed_functions())
+    # the arms of a form split (one vector / a list of vectors, one value / many) forward the same options to the same kernel
+    for f in prog.analysed_functions():
+        if f.module.short not in ('base/animate', 'timing', 'stdlib/collections', 'base/graphics'):
+            r10_args.check_sibling_options(run, f)
+    run.floor('R10c', 12)
     # accessors with a unit / order option: the single-value branch and the per-element branch call the same kernel with the same
     # options (a multi-valued object answers in the unit that was asked for)
     for k in r8_accessors.ACCESSORS:
@@ -483,6 +489,7 @@ def _scope_rules(run, pid, r1=True, r2=True, r9=True, generic=True):
                 r7_binary.check_duplicates(run, f)           # x - x, x == x, atan2(a, a), a paired loop variable that is never used
                 if f.module.short not in ('base/animate', 'timing', 'stdlib/collections', 'base/graphics'):
                     r10_args.check_option_used(run, f)       # an option (check, unit, tol, twist ...) that is accepted but never read
+                    r10_args.check_sibling_options(run, f)   # ... or forwarded in one arm of a case split and dropped in another
         r20_shapes.check_shapes(run, [f for f in fs if f.key not in seen])
         r20_shapes.check_inverted_guards(run, [f for f in fs if f.key not in seen])
         r20_shapes.check_slot_completeness(run, [f for f in fs if f.key not in seen])
